@@ -399,7 +399,12 @@ def step (H : Hashes) (dirLen : Nat) (s : State) : Op → State × Resp
     | .error e => (s, .err e)
     | .ok (bd, p) =>
       match s.node bd p with
-      | none => (s, .err .NoSuchBucket)
+      | none =>
+        -- d6f1a3c: `!path.exists()`: `get_bucket_path(bucket)?.exists()` tells a missing key in an existing bucket
+        -- from a missing bucket (the second `get_bucket_path` cannot fail where `get_object_path` succeeded)
+        match bucketDir b with
+        | none => (s, .err .InvalidBucketName)
+        | some bd2 => if alHas bd2 s.buckets then (s, .err .NoSuchKey) else (s, .err .NoSuchBucket)
       | some n =>
         let len := match n with
           | .file c => c.length
